@@ -486,6 +486,31 @@ def _rand_build(name):
     return build
 
 
+def _rand_forced(name):
+    """The random family run under a SCRIPTED random generator (engine.xp):
+    with the all-zero schedule every draw of the rejection sampler repeats the
+    same clause/parity, so the sampler exhausts its 10*m retries and takes its
+    dense fallback -- a path that seeds practically never reach at these sizes.
+    'mix' is a fixed pseudo-random schedule."""
+    def build(a, fc):
+        import cnfgen
+        from engine import xp
+        k, n, m, sched = a[:4]
+        planted = a[4] if len(a) > 4 else None
+        res = {}
+
+        def body():
+            res['F'] = getattr(cnfgen, name)(k, n, m, planted_assignments=planted, formula_class=fc)
+        ex = xp.Explorer(body, hashing=False, max_dev=0, default=sched, horizon=10 ** 6)
+        x = ex._execute(())
+        if x['status'] != 'done':
+            raise RuntimeError('scripted run did not finish: %s' % x['status'])
+        if x['exception'] is not None:
+            raise x['exception']
+        return res['F']
+    return build
+
+
 def _pitfall_build(a, fc):
     import cnfgen
     random.seed(a[5])
@@ -563,6 +588,8 @@ DOC = {
             _vdw_n),
     'randkcnf': ('RandomKCNF', _rand_build('RandomKCNF'), lambda a: a[1]),
     'randkxor': ('RandomKXOR', _rand_build('RandomKXOR'), lambda a: a[1]),
+    'randkcnf-scripted': ('RandomKCNF', _rand_forced('RandomKCNF'), lambda a: a[1]),
+    'randkxor-scripted': ('RandomKXOR', _rand_forced('RandomKXOR'), lambda a: a[1]),
     'subgraph': ('SubgraphFormula',
                  lambda a, fc: _c().SubgraphFormula(mk_g(a[0]), mk_g(a[1]), induced=a[2], symbreak=a[3],
                                                     formula_class=fc),
@@ -888,6 +915,14 @@ def family_box(tier, seed):
     for a in [(3, 15, 20, 7), (2, 6, 10, 1), (4, 10, 0, 2), (1, 5, 3, 9),
               (3, 8, 10, 4, [[1, -2, 3, -4, 5, -6, 7, -8]])]:
         add('randkxor', *a)
+    for fam_ in ('randkcnf-scripted', 'randkxor-scripted'):
+        # 'zero:T' = all-zero answers during the 10*m retries of the sparse
+        # sampler (2k draws each), then a mixed schedule for the dense fallback
+        for a in [(3, 7, 5, 'zero:300'), (2, 6, 4, 'zero:160'), (1, 5, 3, 'zero:60'),
+                  (3, 12, 6, 'zero:360'), (3, 20, 10, 'zero:600'),
+                  (3, 7, 5, 'mix'), (2, 5, 20, 'mix'), (1, 4, 8, 'mix'), (2, 4, 12, 'mix'),
+                  (3, 8, 4, 'zero:240', [[1, -2, 3, -4, 5, -6, 7, -8]])]:
+            add(fam_, *a)
     for a in [(8, 3, 4, 3, 2, 5), (6, 4, 3, 2, 4, 1), (10, 3, 5, 4, 2, 2), (4, 2, 2, 2, 2, 3)]:
         add('pitfall', *a)
     for g in G_BOX:
